@@ -1,5 +1,5 @@
 #!/usr/bin/env python3
-"""tools/seed_matrix.py [workers]: apply every kept seeded change (seeded/<id>/patch.diff) to its own scratch copy of /repo,
+"""tools/seed_matrix.py [workers [seed ids..]]: apply every kept seeded change (seeded/<id>/patch.diff) to its own scratch copy of /repo,
 extract facts once, run ALL property checks on it, and record which rule instances fire (beyond what fires on the unchanged tree).
 Writes seeded/MATRIX.json and refreshes `detected_by_run` in each meta.json. /repo is never touched."""
 import glob
@@ -60,6 +60,14 @@ def main():
     base = failing(factsmod.Facts(fdir))
     seeds = sorted(glob.glob(os.path.join(HERE, 'seeded', 'C*-m*')))
     matrix = {}
+    only = set(sys.argv[2:])
+    if only:
+        # partial run: only the named seeds, merged into the existing matrix
+        seeds = [s for s in seeds if os.path.basename(s) in only]
+        mp0 = os.path.join(HERE, 'seeded', 'MATRIX.json')
+        if os.path.exists(mp0):
+            with open(mp0) as fh:
+                matrix = {k: v for k, v in json.load(fh)['matrix'].items() if os.path.isdir(os.path.join(HERE, 'seeded', k))}
     with ProcessPoolExecutor(max_workers=workers) as ex:
         for sid, status, bad in ex.map(one, seeds):
             new = {p: [b for b in v if b not in base.get(p, [])] for p, v in bad.items()}
